@@ -50,16 +50,21 @@ def minV : List (Value N) → Option (Value N)
   | [] => none
   | x :: xs => some (xs.foldl minStep x)
 
+/-- no value to compare: without parameters a parameter-count error, for `max([])` a custom error -/
+def emptyError : List (Value N) → NativeError
+  | [] => .wrongParameterCount 1
+  | _ :: _ => .custom ['e','m','p','t','y',' ','a','r','r','a','y']
+
 /-- built-in `max(...)` -/
 def max (params : List (Value N)) : Except NativeError (Value N) :=
   match maxV (smartVec params) with
   | some v => .ok v
-  | none => .error (.wrongParameterCount 1)
+  | none => .error (emptyError params)
 /-- built-in `min(...)` -/
 def min (params : List (Value N)) : Except NativeError (Value N) :=
   match minV (smartVec params) with
   | some v => .ok v
-  | none => .error (.wrongParameterCount 1)
+  | none => .error (emptyError params)
 
 /-- built-in `between(value, lower, upper)` -/
 def between : List (Value N) → Except NativeError (Value N)
